@@ -3,6 +3,17 @@ import RimeModel.C07.TransLemmas
 namespace RimeModel.C07
 open RimeModel.C06
 
+theorem mem_takeWhile_prop {α : Type} (p : α → Bool) : ∀ (l : List α) (x : α), x ∈ l.takeWhile p → p x = true
+  | [], _, h => by simp at h
+  | a :: as, x, h => by
+    rw [List.takeWhile_cons] at h
+    split at h
+    · rename_i ha
+      rcases List.mem_cons.mp h with rfl | h
+      · exact ha
+      · exact mem_takeWhile_prop p as x h
+    · simp at h
+
 theorem consumeDelims_ge (delims input : Bytes) (pos : Nat) : pos ≤ consumeDelims delims input pos := by
   unfold consumeDelims; omega
 
@@ -12,15 +23,19 @@ theorem consumeDelims_delims (delims input : Bytes) (pos i : Nat) (h1 : pos ≤ 
   unfold consumeDelims at h2
   have hlt : i - pos < ((input.drop pos).takeWhile (fun b => delims.contains b)).length := by omega
   have hmem := List.getElem_mem hlt
-  have hp := List.mem_takeWhile_imp hmem
-  have hpre : ((input.drop pos).takeWhile (fun b => delims.contains b)) <+: input.drop pos := List.takeWhile_prefix _
-  obtain ⟨t, ht⟩ := hpre
-  have hget : (input.drop pos)[i - pos]? = some (((input.drop pos).takeWhile (fun b => delims.contains b))[i - pos]) := by
-    rw [← ht, List.getElem?_append_left hlt, List.getElem?_eq_getElem hlt]
-  rw [List.getElem?_drop] at hget
+  have hp := mem_takeWhile_prop _ _ _ hmem
+  generalize hl : input.drop pos = l at hlt hmem hp
+  have hget : l[i - pos]? = some ((l.takeWhile (fun b => delims.contains b))[i - pos]) := by
+    obtain ⟨t, ht⟩ := List.takeWhile_prefix (fun b => delims.contains b) (l := l)
+    have h3 : (l.takeWhile (fun b => delims.contains b) ++ t)[i - pos]? = some ((l.takeWhile (fun b => delims.contains b))[i - pos]) := by
+      rw [List.getElem?_append_left hlt, List.getElem?_eq_getElem hlt]
+    rw [ht] at h3
+    exact h3
+  generalize (l.takeWhile (fun b => delims.contains b))[i - pos] = b at hget hp
+  rw [← hl, List.getElem?_drop] at hget
   have : pos + (i - pos) = i := by omega
   rw [this] at hget
-  exact ⟨_, hget, hp⟩
+  exact ⟨b, hget, hp⟩
 
 /-- what every edge of the word graph stands for: a key the prism found at its start, with words, followed by the
 delimiters that come after it in the input -/
